@@ -734,6 +734,16 @@ func (e *endpoint) watchPoll(ctx context.Context, pollingInterval uint32, nonRec
 		// Disable the use of the existing scan results.
 		e.accelerate = false
 
+		// If any scan has succeeded so far, then compare against the most
+		// recent one, which is the state that callers of Scan have seen, rather
+		// than against our own previous polling scan. Otherwise a modification
+		// that returns the disk to what our previous polling scan saw, after
+		// the controller has scanned a different state in between (e.g.
+		// following a transition), would never be reported.
+		if e.snapshot != nil {
+			previous = e.snapshot
+		}
+
 		// Perform a scan. If there's an error, then assume it's due to
 		// concurrent modification. In that case, release the scan lock and
 		// strobe the poll events channel. The controller can then perform a
